@@ -232,7 +232,8 @@ class C16(Check):
                  ["addr = addr.split('/')", "if len(addr) > 2:", "if addr[1] and all((c in '0123456789' for c in addr[1])):"]),
         "seq": (["EthAddr.__init__"],
                 ["elif isinstance(addr, (list, tuple, bytearray)):\n    self._value = bytes(addr)"],
-                ["elif isinstance(addr, (list, tuple, bytearray)):\n    if len(addr) != 6:\n        raise RuntimeError('Expected ethernet address to be 6 bytes')\n"
+                ["elif isinstance(addr, (list, tuple, bytearray)):\n    if ",
+                 "elif isinstance(addr, (list, tuple, bytearray)):\n    if len(addr) != 6:\n        raise RuntimeError('Expected ethernet address to be 6 bytes')\n"
                  "    self._value = bytes(addr)"])}
     MODULE_CONSTS = {"ip4": ["_ip4_octets = frozenset((str(i) for i in range(256)))",
                              "def _inet_aton(s):", "parts = s.split('.')", "if len(parts) != 4 or not all((p in _ip4_octets for p in parts)):",
@@ -252,25 +253,29 @@ class C16(Check):
                 node = nxt[0]
             return ast.unparse(node)
         def norm(t): return "\n".join(l.strip() for l in t.split("\n"))
-        out = {}
+        out, inexact = {}, []
         for fam, (quals, old, new) in self.VARIANT_SHAPES.items():
             verdicts = []
             for q in quals:
                 text = norm(fn_text(q))
-                has_old = all(norm(x) in text for x in old)
-                has_new = all(norm(x) in text for x in new)
-                if has_old == has_new:
-                    raise RuntimeError("C16: %s has a shape the model does not know (family %s: old=%s new=%s)" % (q, fam, has_old, has_new))
-                verdicts.append(has_new)
+                # the first statement of each list discriminates; the rest pins the exact shape the model was written from
+                is_old, is_new = norm(old[0]) in text, norm(new[0]) in text
+                if is_old == is_new:
+                    raise RuntimeError("C16: %s has a shape the model does not know (family %s: old=%s new=%s)" % (q, fam, is_old, is_new))
+                verdicts.append(is_new)
+                if not all(norm(x) in text for x in (new if is_new else old)): inexact.append(q)
             if len(set(verdicts)) != 1: raise RuntimeError("C16: family %s is repaired in only some of %s" % (fam, quals))
             if verdicts[0]:
                 for c in self.MODULE_CONSTS.get(fam, []):
-                    if norm(c) not in norm(module_text): raise RuntimeError("C16: repair %s without its helper %r" % (fam, c))
+                    if norm(c) not in norm(module_text): inexact.append("%s helper %r" % (fam, c))
             out[fam] = verdicts[0]
+        # a function that is neither exactly the original nor exactly the repaired text is still run (against the nearer model
+        # variant): the correspondence and the oracle decide; the evidence records that the shape was not the known one
+        self.variant_inexact = inexact
         return out
 
     def extra_evidence(self):
-        return {"op_histogram": dict(sorted(self.stats.items())), "code_variant": self.variant}
+        return {"op_histogram": dict(sorted(self.stats.items())), "code_variant": self.variant, "code_variant_inexact_shapes": self.variant_inexact}
 
     # ------------------------------------------------------------------------- generators
     IP4_BOUNDARY = [0, 1, 2, 0x7f, 0x80, 0xff, 0x100, 0x7fffffff, 0x80000000, 0x80000001, 0xfffffffe, 0xffffffff,
